@@ -14,6 +14,7 @@ mod c07;
 mod c08;
 mod c14;
 mod c15;
+mod c16;
 mod c17;
 mod c18;
 mod c20;
@@ -65,6 +66,7 @@ fn main() {
         "C08" => c08::run(&mut ctx),
         "C14" => c14::run(&mut ctx),
         "C15" => c15::run(&mut ctx),
+        "C16" => c16::run(&mut ctx),
         "C17" => c17::run(&mut ctx),
         "C18" => c18::run(&mut ctx),
         "C20" => c20::run(&mut ctx),
